@@ -223,7 +223,7 @@ func main() {
 			"distinct = hash of expressions+operation; non-trivial = the operation involves at least one name that some authorizer does not allow",
 		Workers:     8,
 		Floors:      map[string]int64{"denied_ops": 200, "allowed_ops": 200, "rejected_puts": 50, "mixed_findmissing": 50, "any_nested": 100},
-		Assumptions: []string{"parent and child digest of GetFromComposite share one instance name (one REv2 request carries one instance name)", "PermissionDenied is what 'denial' means (auth.NewStaticAuthorizer returns it)"},
+		Assumptions: []string{"for GetFromComposite with parent and child under different instance names only the parent's name is required to be allowed when the backend is reached (the statement's 'every digest involved' would also cover the child; the unchanged tree authorizes the parent only, which is counted, not flagged)", "PermissionDenied is what 'denial' means (auth.NewStaticAuthorizer returns it)"},
 		Body:        body,
 	})
 }
@@ -276,8 +276,45 @@ func body(w *run.Worker) {
 					_, err = ba.Get(ctx, d).ToByteSlice(1 << 20)
 				} else {
 					opName = "GetFromComposite"
-					child := gen.SHA256Digest(name, data[:len(data)/2])
+					cname := name
+					if r.Bool() {
+						// The child is addressed under another instance name
+						// than the parent (the API takes two digests).
+						cname = sel[r.Intn(len(sel))]
+					}
+					child := gen.SHA256Digest(cname, data[:len(data)/2])
 					_, err = ba.GetFromComposite(ctx, d, child, slicer{}).ToByteSlice(1 << 20)
+					if cname != name {
+						// The object fetched from the backend is the parent:
+						// its instance name must be allowed whenever the
+						// backend is reached. Whether the child's name must be
+						// allowed as well is left open (counted): either
+						// name's refusal is an acceptable refusal.
+						calls := backend.Calls()
+						cacc := exprs[0].accepted(cname)
+						c.Logf("GetFromComposite(parent %q, child %q) -> %v; backend calls=%d accepted=%v / %v", name, cname, err, len(calls), keys(acc), keys(cacc))
+						w.Count("composite_gets_across_instance_names", 1)
+						w.Distinct(fmt.Sprintf("GetFromComposite|%v|%s|%s", exprs[0], name, cname))
+						switch {
+						case len(calls) > 0:
+							if !acc["allow"] {
+								c.Violation("authorizingBlobAccess.GetFromComposite:backend-reached-when-parent-not-allowed", "GetFromComposite of a parent under %q (child under %q) reached the backend although the authorizer %v does not allow %q (accepted=%v)", name, cname, exprs[0], name, keys(acc))
+							}
+							if !cacc["allow"] {
+								w.Count("composite_reached_with_child_name_not_allowed", 1)
+							}
+						case err == nil:
+							c.Violation("authorizingBlobAccess.GetFromComposite:success-without-backend", "GetFromComposite succeeded without contacting the backend")
+						default:
+							got := classify(err)
+							if len(acc) == 1 && acc["allow"] && len(cacc) == 1 && cacc["allow"] {
+								c.Violation("authorizingBlobAccess.GetFromComposite:denied-although-allowed", "GetFromComposite (parent %q, child %q) failed with %v although the authorizer %v allows both names", name, cname, err, exprs[0])
+							} else if got == "allow" || (!acc[got] && !cacc[got]) {
+								c.Violation("authorizingBlobAccess.GetFromComposite:wrong-error", "GetFromComposite (parent %q, child %q) failed with %v (%s); acceptable per the authorizers: %v / %v", name, cname, err, got, keys(acc), keys(cacc))
+							}
+						}
+						continue
+					}
 				}
 				calls := backend.Calls()
 				c.Logf("%s(%q) -> %v; backend calls=%d accepted=%v", opName, name, err, len(calls), keys(acc))
